@@ -9,7 +9,7 @@
                                own chirality (Proof/UqAeq.v); [c] = chirality of the position as in
                                subst_term. *)
 From Coq Require Import List ZArith NArith String Bool.
-From SCC Require Import Base.Sexp Lang.CoreSyn Sem.AxSem Sem.CoreSem.
+From SCC Require Import Base.Sexp Lang.SynUtil Lang.CoreSyn Sem.AxSem Sem.CoreSem.
 Import ListNotations.
 Open Scope list_scope.
 
@@ -137,3 +137,100 @@ with cs_stmt (S : list (cident * cchi)) (s : cstmt) : bool :=
 Definition cs_def (d : cdef) : bool := cs_stmt (ctx_sc (cdctx d)) (cdbody d).
 Definition cs_prog (p : cprog) : bool := forallb cs_def (cpdefs p).
 
+
+(* ---------- simple types: the discipline that excludes kind clashes ----------
+   [tc_* S c ty t]: the term t, standing in a position of chirality c, has type ty when the binders in
+   scope have the types S (one namespace, innermost first, as in the machine).  Annotations must be
+   exact: an occurrence carries the type of its binder, a cut the type of both sides; xtor arguments
+   and clause contexts are checked against the declaration of the type (constructors: data_types,
+   destructors: codata_types), call arguments against the parameters of the callee.  Chiralities are
+   not checked here (cs_prog does that). *)
+Definition tenv := list (cident * cty).
+Fixpoint tfind (S : tenv) (x : cident) : option cty :=
+  match S with
+  | [] => None
+  | (y, k) :: r => if cident_eqb y x then Some k else tfind r x
+  end.
+
+Section Types.
+Variable p : cprog.
+Definition ctx_tys (ctx : cctx) : list cty := map cbty ctx.
+Definition ctx_tenv (ctx : cctx) : tenv := map (fun b => (cbvar b, cbty b)) ctx.
+(* the declared argument types of xtor [tag] of the type [ty], looked up among the data (pol = false)
+   or the codata (pol = true) declarations *)
+Definition xtor_sig (pol : bool) (ty : cty) (tag : cident) : option (list cty) :=
+  match ty with
+  | CI64 => None
+  | CDecl n =>
+      if Bool.eqb (is_codata p ty) pol then
+        match find (fun d => cident_eqb (ctname d) n) (if pol then cpcodata p else cpdata p) with
+        | Some d =>
+            match find (fun x => cident_eqb (cxname x) tag) (ctxtors d) with
+            | Some x => Some (ctx_tys (cxargs x))
+            | None => None
+            end
+        | None => None
+        end
+      else None
+  end.
+Definition def_sig (f : cident) : option (list cty) :=
+  match cfind_def p f with Some d => Some (ctx_tys (cdctx d)) | None => None end.
+
+Fixpoint tc_term (S : tenv) (c : cchi) (ty : cty) (t : cterm) : bool :=
+  match t with
+  | CXVar _ x ty' => cty_eqb ty' ty && match tfind S x with Some tx => cty_eqb tx ty | None => true end
+  | CLit _ => cty_eqb ty CI64 && cchi_eqb c CPrd
+  | COp a _ b => cty_eqb ty CI64 && cchi_eqb c CPrd && tc_term S CPrd CI64 a && tc_term S CPrd CI64 b
+  | CMu _ x s ty' => cty_eqb ty' ty && tc_stmt ((x, ty) :: S) s
+  | CXtor _ tag args ty' =>
+      cty_eqb ty' ty &&
+      match xtor_sig (match c with CPrd => false | CCns => true end) ty tag with
+      | Some tys =>
+          ((fix go (l : list carg) (ts : list cty) {struct l} : bool :=
+              match l, ts with
+              | [], [] => true
+              | x :: r, t0 :: tr => tc_arg S t0 x && go r tr
+              | _, _ => false
+              end) args tys)
+      | None => false
+      end
+  | CXCase _ cls ty' =>
+      cty_eqb ty' ty &&
+      forallb (tc_clause S (match c with CPrd => true | CCns => false end) ty) cls
+  end
+with tc_arg (S : tenv) (ty : cty) (a : carg) : bool :=
+  match a with
+  | CProducer t => tc_term S CPrd ty t
+  | CConsumer t => tc_term S CCns ty t
+  end
+with tc_clause (S : tenv) (pol : bool) (ty : cty) (cl : cclause) : bool :=
+  match cl with
+  | CClause _ tag ctx b =>
+      match xtor_sig pol ty tag with
+      | Some tys => list_eqb cty_eqb (ctx_tys ctx) tys
+      | None => false
+      end && tc_stmt (ctx_tenv ctx ++ S) b
+  end
+with tc_stmt (S : tenv) (s : cstmt) : bool :=
+  match s with
+  | CCut a ty b => tc_term S CPrd ty a && tc_term S CCns ty b
+  | CIfC _ a b t e =>
+      tc_term S CPrd CI64 a && match b with Some b' => tc_term S CPrd CI64 b' | None => true end
+      && tc_stmt S t && tc_stmt S e
+  | CPrint _ a n => tc_term S CPrd CI64 a && tc_stmt S n
+  | CCall f args _ =>
+      match def_sig f with
+      | Some tys =>
+          ((fix go (l : list carg) (ts : list cty) {struct l} : bool :=
+              match l, ts with
+              | [], [] => true
+              | x :: r, t0 :: tr => tc_arg S t0 x && go r tr
+              | _, _ => false
+              end) args tys)
+      | None => false
+      end
+  | CExit a _ => tc_term S CPrd CI64 a
+  end.
+Definition tc_def (d : cdef) : bool := tc_stmt (ctx_tenv (cdctx d)) (cdbody d).
+Definition tc_prog : bool := forallb tc_def (cpdefs p).
+End Types.
